@@ -501,7 +501,9 @@ def cleanup_leftovers():
             removed = sweep(pth)
             n += removed
             try:
-                if removed or now - os.path.getmtime(pth) > 300:
+                # an empty node directory is what finding D22 leaves behind; a node that is being created right now has one
+                # for an instant (mkdir, then the details file): leave the very young ones alone
+                if removed or now - os.path.getmtime(pth) > 3:
                     os.rmdir(pth)          # only succeeds when nothing else is left in it
                     n += 1
             except OSError:
